@@ -59,6 +59,18 @@ def target_reflective_edge():
                 tags=["reflective"])
 
 
+def target_narrow():
+    # posterior 1e4 times narrower than the prior (unit-cube sd 1e-4): unit-scale bivariate Student-t kernel (nu = 10) under
+    # U(-5000, 5000)^2 — anything absolute (not relative to the fitted covariance ~1e-8) in the proposal machinery shows here
+    from scipy import stats
+    like = lambda x: -6.0 * float(np.log1p(np.sum(x ** 2) / 10.0))
+    truth = 2.0 * stats.t.cdf(1.0, 10.0) - 1.0          # P(|x0| < 1), marginal t_10
+    # int (1 + r^2/nu)^(-(nu+2)/2) d^2x = 2 pi
+    logz = math.log(2.0 * math.pi) - 2.0 * math.log(1.0e4)
+    return dict(d=2, like=like, stat=lambda x: (np.abs(x[:, 0]) < 1.0).astype(float), truth=truth, scale=0.5, logz=logz, periodic=None,
+                reflective=None, tags=["narrow"], half=5000.0, n=128, n_total=1024)
+
+
 def target_bimodal():
     s = 0.35
     m1, m2 = np.array([-2.0, -2.0]), np.array([2.0, 2.0])
@@ -117,7 +129,7 @@ def target_sharp():
                 tags=["sharp"], half=500.0)
 
 
-TARGETS = {"reflective_edge": target_reflective_edge, "minor": target_minor, "sharp": target_sharp, "interior": target_interior, "boundary": target_boundary, "periodic": target_periodic, "bimodal": target_bimodal,
+TARGETS = {"narrow": target_narrow, "reflective_edge": target_reflective_edge, "minor": target_minor, "sharp": target_sharp, "interior": target_interior, "boundary": target_boundary, "periodic": target_periodic, "bimodal": target_bimodal,
            "cauchy": target_cauchy, "correlated": target_correlated}
 
 
@@ -179,9 +191,9 @@ def run_cell(cell, what, R):
 def _cells(tier):
     cells = []
     # `periodic` (von-Mises peak AT the seam) and `reflective_edge` have posterior mass at a folded face; with tpCN they are F17
-    for target in ("reflective_edge", "periodic", "minor", "sharp", "cauchy", "correlated", "interior", "bimodal", "boundary"):
+    for target in ("narrow", "reflective_edge", "periodic", "minor", "sharp", "cauchy", "correlated", "interior", "bimodal", "boundary"):
         for kernel in ("tpcn", "rwm"):
-            if target == "sharp" and kernel == "rwm":
+            if target in ("sharp", "narrow") and kernel == "rwm":
                 continue        # finite-particle error of the random-walk kernel on this target is large on correct code too
             for resample, clustering in (("mult", target in ("bimodal", "minor")), ("syst", target == "minor")):
                 cells.append(dict(target=target, kernel=kernel, resample=resample, clustering=clustering, n=64, n_total=256))
